@@ -133,42 +133,59 @@ Section Walk.
 Context {S : Type} (H : handlers S).
 Notation st := (ws S).
 
+(* Every piece below comes in two layers: [f_r r ...] takes the register file as
+   an explicit argument (all tests on registers refer to it), and
+   [f ... s := f_r (w_r s) ... s].  This makes "the branch taken depends on the
+   registers only" visible to the simulation proofs. *)
+
+Definition set_r (r : regs) (s : st) : st := mkWs r (w_c s).
+
 (* ---- process_associated_field ---- *)
-Definition do_assoc (id : N) (s : st) : result st :=
-  let nb := sumZ (r_assoc (w_r s)) in
+Definition do_assoc_r (r : regs) (id : N) (s : st) : result st :=
+  let nb := sumZ (r_assoc r) in
   h_codeflag H (DDAssoc id nb) nb nb s.
+Definition do_assoc (id : N) (s : st) : result st := do_assoc_r (w_r s) id s.
 
 (* ---- process_element_descriptor; [dd] is the descriptor object itself
         (a plain element or a marker built from one), [e] its Table B fields --- *)
-Definition do_element (dd : ddesc) (e : elem) (s : st) : result st :=
-  let X := desc_X (e_id e) in
-  (* associated field: [if state.nbits_of_associated and X != 31] *)
-  let* s1 := (match r_assoc (w_r s) with
-              | [] => Ok s
-              | _ :: _ => if (X =? 31)%N then Ok s else do_assoc (e_id e) s
-              end) in
-  (* class 33 after 222000 *)
-  let* s2 :=
-    (if (X =? 33)%N then
-       let s1' := if (r_qa (w_r s1) =? QA_INFO_WAITING)%N
-                  then upd_r (set_qa QA_INFO_PROCESSING) s1 else s1 in
-       if (r_qa (w_r s1') =? QA_INFO_PROCESSING)%N then h_add_bitmap_link H s1' else Ok s1'
-     else
-       Ok (if (r_qa (w_r s1) =? QA_INFO_PROCESSING)%N then upd_r (set_qa QA_INFO_NA) s1 else s1)) in
-  let r := w_r s2 in
+(* associated field: [if state.nbits_of_associated and X != 31] *)
+Definition elem_assoc_r (r : regs) (e : elem) (s : st) : result st :=
+  match r_assoc r with
+  | [] => Ok s
+  | _ :: _ => if (desc_X (e_id e) =? 31)%N then Ok s else do_assoc (e_id e) s
+  end.
+Definition elem_assoc (e : elem) (s : st) : result st := elem_assoc_r (w_r s) e s.
+
+(* class 33 after 222000 *)
+Definition elem_qa_r (r : regs) (e : elem) (s : st) : result st :=
+  if (desc_X (e_id e) =? 33)%N then
+    if (r_qa r =? QA_INFO_WAITING)%N then h_add_bitmap_link H (upd_r (set_qa QA_INFO_PROCESSING) s)
+    else if (r_qa r =? QA_INFO_PROCESSING)%N then h_add_bitmap_link H s
+    else Ok s
+  else
+    if (r_qa r =? QA_INFO_PROCESSING)%N then Ok (upd_r (set_qa QA_INFO_NA) s) else Ok s.
+Definition elem_qa (e : elem) (s : st) : result st := elem_qa_r (w_r s) e s.
+
+Definition elem_body_r (r : regs) (dd : ddesc) (e : elem) (s : st) : result st :=
   match kind_of_unit (e_unit e) with
   | KString =>
       let nbytes := if (r_new_nbytes r =? 0)%Z then (e_nbits e / 8)%Z else r_new_nbytes r in
-      h_string H dd nbytes s2
-  | KCodeFlag => h_codeflag H dd (e_nbits e) (e_nbits e) s2
+      h_string H dd nbytes s
+  | KCodeFlag => h_codeflag H dd (e_nbits e) (e_nbits e) s
   | KNumeric =>
       let nbits := (e_nbits e + r_nbits_offset r + bsr_nbits (r_bsr r))%Z in
       let scale := (e_scale e + r_scale_offset r + bsr_scale (r_bsr r))%Z in
       match refval_lookup (e_id e) (r_new_refvals r) with
-      | None => h_numeric H dd nbits scale (e_refval e * bsr_factor (r_bsr r))%Z s2
-      | Some _ => h_numeric_new_refval H dd nbits scale (bsr_factor (r_bsr r)) s2
+      | None => h_numeric H dd nbits scale (e_refval e * bsr_factor (r_bsr r))%Z s
+      | Some _ => h_numeric_new_refval H dd nbits scale (bsr_factor (r_bsr r)) s
       end
   end.
+Definition elem_body (dd : ddesc) (e : elem) (s : st) : result st := elem_body_r (w_r s) dd e s.
+
+Definition do_element (dd : ddesc) (e : elem) (s : st) : result st :=
+  let* s1 := elem_assoc e s in
+  let* s2 := elem_qa e s1 in
+  elem_body dd e s2.
 
 (* ---- the default process_bitmapped_descriptor (Coder), used at run time ----
    next_bitmapped_descriptor(): TypeError when never defined, StopIteration
@@ -186,8 +203,7 @@ Definition marker_elem (marker : N) (e : elem) : elem :=
   else e.
 
 (* ---- process_bitmap_definition (the state machine step for one member) ---- *)
-Definition bitmap_def_step (id : N) (s : st) : result st :=
-  let r := w_r s in
+Definition bitmap_def_step_r (r : regs) (id : N) (s : st) : result st :=
   if (r_bm_state r =? BITMAP_INDICATOR)%N then
     if (id =? 236000)%N then
       Ok (upd_r (fun r => set_n031031 0 (set_bm_state BITMAP_WAITING_FOR_BIT (set_reuse true r))) s)
@@ -205,33 +221,32 @@ Definition bitmap_def_step (id : N) (s : st) : result st :=
       let* s1 := h_define_bitmap H (r_reuse r) s in
       Ok (upd_r (set_bm_state BITMAP_NA) s1)
   else Ok s.
+Definition bitmap_def_step (id : N) (s : st) : result st := bitmap_def_step_r (w_r s) id s.
 
 (* ---- process_operator_descriptor ---- *)
-Definition do_marker (id : N) (bitmapped_body : st -> result st) (s : st) : result st :=
+Definition do_marker_r (r : regs) (id : N) (bitmapped_body : st -> result st) (s : st) : result st :=
   (* process_marker_operator_descriptor *)
-  let* s1 := (match r_assoc (w_r s) with [] => Ok s | _ :: _ => do_assoc id s end) in
+  let* s1 := (match r_assoc r with [] => Ok s | _ :: _ => do_assoc id s end) in
   h_bitmapped H id bitmapped_body s1.
 
-Definition do_operator (id : N) (bitmapped_body : st -> result st) (s : st) : result st :=
+Definition do_operator_r (r : regs) (id : N) (bitmapped_body : st -> result st) (s : st) : result st :=
   let code := (id / 1000)%N in
   let operand := Z.of_N (id mod 1000) in
-  let r := w_r s in
   if (code =? 201)%N then
     Ok (upd_r (set_nbits_offset (if (operand =? 0)%Z then 0 else operand - 128)%Z) s)
   else if (code =? 202)%N then
     Ok (upd_r (set_scale_offset (if (operand =? 0)%Z then 0 else operand - 128)%Z) s)
   else if (code =? 203)%N then
     if (operand =? 255)%Z then Ok (upd_r (set_nbits_new_refval 0) s)
-    else
-      let s1 := upd_r (set_nbits_new_refval operand) s in
-      Ok (if (operand =? 0)%Z then upd_r (set_new_refvals []) s1 else s1)
+    else if (operand =? 0)%Z then Ok (upd_r (fun r => set_new_refvals [] (set_nbits_new_refval operand r)) s)
+    else Ok (upd_r (set_nbits_new_refval operand) s)
   else if (code =? 204)%N then
     if (operand =? 0)%Z then
       match r_assoc r with
       | [] => Err EIndex                         (* pop from empty list *)
-      | _ :: _ => Ok (upd_r (set_assoc (removelast (r_assoc r))) s)
+      | _ :: _ => Ok (upd_r (fun r => set_assoc (removelast (r_assoc r)) r) s)
       end
-    else Ok (upd_r (set_assoc (r_assoc r ++ [operand])) s)
+    else Ok (upd_r (fun r => set_assoc (r_assoc r ++ [operand]) r) s)
   else if (code =? 205)%N then h_string H (DDOper id) operand s
   else if (code =? 206)%N then Ok (upd_r (set_nbits_skipped operand) s)
   else if (code =? 207)%N then
@@ -241,11 +256,10 @@ Definition do_operator (id : N) (bitmapped_body : st -> result st) (s : st) : re
   else if (code =? 221)%N then Ok (upd_r (set_dnp operand) s)
   else if (code =? 222)%N || (code =? 223)%N || (code =? 224)%N || (code =? 225)%N || (code =? 232)%N then
     if (operand =? 0)%Z then
-      let s1 := upd_r (set_bm_state BITMAP_INDICATOR) s in
-      let* s2 := h_mark_boundary H s1 in
+      let* s2 := h_mark_boundary H (upd_r (set_bm_state BITMAP_INDICATOR) s) in
       let* s3 := h_constant H (DDOper id) 0 s2 in
       Ok (if (code =? 222)%N then upd_r (set_qa QA_INFO_WAITING) s3 else s3)
-    else do_marker id bitmapped_body s
+    else do_marker_r r id bitmapped_body s
   else if (code =? 235)%N then h_cancel_backrefs H s
   else if (code =? 236)%N then h_constant H (DDOper id) 0 s
   else if (code =? 237)%N then
@@ -253,10 +267,11 @@ Definition do_operator (id : N) (bitmapped_body : st -> result st) (s : st) : re
                 else if r_reuse r then h_cancel_bitmap H s else Ok s) in
     h_constant H (DDOper id) 0 s1
   else Err ENotImpl.
+Definition do_operator (id : N) (bitmapped_body : st -> result st) (s : st) : result st :=
+  do_operator_r (w_r s) id bitmapped_body s.
 
-(* ---- what precedes the dispatch of one member in process_members ----------
-   Returns [inl s'] when the member has been dealt with ("continue") and
-   [inr s'] when it has to be processed normally. *)
+(* ---- one member of process_members: the checks that precede the dispatch,
+        then [normal] (the dispatch itself) unless a check said "continue" ------ *)
 Definition is_plain_elem (d : desc) : option elem :=
   match d with DElem e => Some e | _ => None end.
 
@@ -266,40 +281,49 @@ Definition dnp_skips (d : desc) : bool :=
   | _ => false
   end.
 
-Definition pre_member (d : desc) (s : st) : result (st + st) :=
-  (* 221 *)
-  let s1 := if (r_dnp (w_r s) =? 0)%Z then s else upd_r (fun r => set_dnp (r_dnp r - 1) r) s in
-  if negb (r_dnp (w_r s) =? 0)%Z && dnp_skips d then Ok (inl s1)
-  else
-  (* 203: defining new reference values, element descriptors only *)
-  match (if (r_nbits_new_refval (w_r s1) =? 0)%Z then None else is_plain_elem d) with
+(* 203 (defining new reference values, element descriptors only), 206 (skipped
+   local descriptor, whatever the member is), bitmap definition in progress *)
+Definition member_rest_r (r : regs) (d : desc) (normal : st -> result st) (s : st) : result st :=
+  match (if (r_nbits_new_refval r =? 0)%Z then None else is_plain_elem d) with
   | Some e =>
       match kind_of_unit (e_unit e) with
       | KString => Err ELib
-      | _ => let* s2 := h_new_refval H (DDElem e) (r_nbits_new_refval (w_r s1)) s1 in Ok (inl s2)
+      | _ => h_new_refval H (DDElem e) (r_nbits_new_refval r) s
       end
   | None =>
-  (* 206: skipped local descriptor, whatever the member is *)
-  if negb (r_nbits_skipped (w_r s1) =? 0)%Z then
-    let nb := r_nbits_skipped (w_r s1) in
-    let* s2 := h_codeflag H (DDSkipped (desc_id d) nb) nb nb s1 in
-    Ok (inl (upd_r (set_nbits_skipped 0) s2))
+  if negb (r_nbits_skipped r =? 0)%Z then
+    let nb := r_nbits_skipped r in
+    let* s2 := h_codeflag H (DDSkipped (desc_id d) nb) nb nb s in
+    Ok (upd_r (set_nbits_skipped 0) s2)
   else
-  (* bitmap definition in progress *)
-  if negb (r_bm_state (w_r s1) =? BITMAP_NA)%N then
-    let* s2 := h_bitmap_def_wrap H (bitmap_def_step (desc_id d)) s1 in Ok (inr s2)
-  else Ok (inr s1)
+  if negb (r_bm_state r =? BITMAP_NA)%N then
+    let* s2 := h_bitmap_def_wrap H (bitmap_def_step (desc_id d)) s in normal s2
+  else normal s
   end.
+Definition member_rest (d : desc) (normal : st -> result st) (s : st) : result st :=
+  member_rest_r (w_r s) d normal s.
+
+(* 221: data not present *)
+Definition member_step_r (r : regs) (d : desc) (normal : st -> result st) (s : st) : result st :=
+  if (r_dnp r =? 0)%Z then member_rest d normal s
+  else if dnp_skips d then Ok (upd_r (fun r => set_dnp (r_dnp r - 1) r) s)
+  else member_rest d normal (upd_r (fun r => set_dnp (r_dnp r - 1) r) s).
+Definition member_step (d : desc) (normal : st -> result st) (s : st) : result st :=
+  member_step_r (w_r s) d normal s.
 
 (* the body of Coder.process_bitmapped_descriptor for marker operator [id],
    given the run-time registers: used as default by decoder and encoder and at
    run time by compiled templates *)
+Definition bitmapped_default_r (add_link : N -> st -> result st) (r : regs) (id : N) (s : st) : result st :=
+  match next_bitmapped r with
+  | Err e => Err e
+  | Ok ((idx, e), r') =>
+      let* s1 := add_link idx (set_r r' s) in
+      let e' := marker_elem id e in
+      do_element (DDMarker e' id) e' s1
+  end.
 Definition bitmapped_default (add_link : N -> st -> result st) (id : N) (s : st) : result st :=
-  let* (b, r') := next_bitmapped (w_r s) in
-  let '(idx, e) := b in
-  let* s1 := add_link idx (mkWs r' (w_c s)) in
-  let e' := marker_elem id e in
-  do_element (DDMarker e' id) e' s1.
+  bitmapped_default_r add_link (w_r s) id s.
 
 Context (add_link : N -> st -> result st).   (* state.bitmap_links[len(decoded_descriptors)] = idx *)
 
@@ -322,12 +346,7 @@ Fixpoint walk (d : desc) (s : st) {struct d} : result st :=
 with walk_list (ms : descs) (s : st) {struct ms} : result st :=
   match ms with
   | DNil => Ok s
-  | DCons m rest =>
-      let* p := pre_member m s in
-      match p with
-      | inl s1 => walk_list rest s1
-      | inr s1 => let* s2 := walk m s1 in walk_list rest s2
-      end
+  | DCons m rest => let* s1 := member_step m (walk m) s in walk_list rest s1
   end.
 
 End Walk.
